@@ -343,6 +343,12 @@ func (concEngine) Corpus() []Case {
 			{gid: -1, methods: []string{"POST"}, pattern: "/d/{id}/x", name: "px", main: 102}},
 		reqs:  []ccReq{{"HEAD", "/d/1"}, {"GET", "/d/new"}, {"GET", "/d/1/x"}, {"POST", "/d/2"}},
 		sched: []int{0, 1, 2, 3, 3, 2, 1, 0}})
+	// three requests for one cached key: the second (a hit) rewrites its params, the third (a hit) must not see it
+	add("cache-params-hit", gCase{cache: 2,
+		progs:  map[int]string{100: "SP,P,WP:6964:6576696c,SP,P,W:55"},
+		routes: []gRoute{{gid: -1, methods: get, pattern: "/u/{id}", main: 100}},
+		reqs:   []ccReq{{"GET", "/u/7"}, {"GET", "/u/7"}, {"GET", "/u/7"}},
+		sched:  []int{0, 0, 0, 1, 1, 2, 1, 2, 2}})
 	add("cache-cap0", gCase{cache: 0,
 		progs:  map[int]string{100: "P,SP,W:64"},
 		routes: []gRoute{{gid: -1, methods: get, pattern: "/d/{id}", main: 100}},
@@ -570,6 +576,27 @@ func ccGenCase(r *Rand, thorough bool, nReqForce int) (*gCase, string) {
 			g.reqs = append(g.reqs, ccReq{r.Pick([]string{"GET", "POST"}), r.Pick([]string{"/nope/x", "/nope", "/d0", "/s0/x/y"})})
 		default:
 			g.reqs = append(g.reqs, ccReq{r.Pick([]string{"GET", "OPTIONS"}), concrete(rt)})
+		}
+	}
+	// stream "same key": every request asks for the first dynamic URL, the cache can hold it, the main handler of
+	// every route reads, rewrites and reads its params again
+	if r.Chance(1, 6) {
+		for _, rq := range g.reqs {
+			if rid, _, ok := g.matchDyn(rq.method, rq.path); ok {
+				if _, st := g.matchStable(rq.method, rq.path); st {
+					continue
+				}
+				for i := range g.reqs {
+					g.reqs[i] = rq
+				}
+				if g.cache < 1 {
+					g.cache = r.Range(1, 3)
+				}
+				id := g.routes[rid].main
+				g.progs[id] = "SP," + strings.Join(park(), ",") + ",WP:" + hx(r.Pick(pnames)) + ":" + hx("evil") + ",SP," + g.progs[id]
+				g.progs[id] = strings.ReplaceAll(g.progs[id], ",,", ",")
+				break
+			}
 		}
 	}
 	// schedule
